@@ -57,6 +57,9 @@ ASSUMPTIONS = [
     "returned model is compared as a dense array instead of factor by factor",
     "scipy.sparse.linalg.eigsh (behind data.nvecs) is called with a fixed start vector v0 so that repeated runs "
     "from init='nvecs' follow one trajectory (ARPACK's own start vector is drawn from a stateful generator)",
+    "normal form: a column of the returned model may be entirely zero when its weight is exactly 0 (a component "
+    "that collapsed, e.g. a start orthogonal to the data); every other column must have 2-norm 1 to 1e-8 — this "
+    "is the `unit or zero` alternative of C09_normal_form; such cases are tagged zero-component and counted trivial",
     "printed text is captured and not compared; printitn only matters through the final recomputation of the report",
 ]
 EXHAUSTIVE = {"quick": False, "thorough": False}
@@ -621,7 +624,8 @@ class Trace(Family):
             tags.append("stopped-early")
         else:
             tags.append("limit-reached")
-        return Verdict("ok", "", {"fits": fits0, "iters": iters0}, None, None, tags, nontrivial)
+        return Verdict("ok", "", {"fits": fits0, "iters": iters0}, None, None, tags,
+                       nontrivial and "zero-component" not in tags)
 
     def property_checks(self, case, runs_p, runs_0, X, normX_true, dims, illcond, tags):
         d = case["data"]
@@ -661,7 +665,12 @@ class Trace(Family):
                     cn = np.sqrt((F ** 2).sum(axis=0))
                     for r in range(R):
                         unit = abs(cn[r] - 1) <= PROP_REL
-                        zero_ok = (degenerate or "rank-deficient-data" in tags) and cn[r] == 0 and W[r] == 0
+                        # a component that collapsed to zero (start orthogonal to the data, zero data,
+                        # zero factor in the guess) keeps a zero column and carries weight exactly 0:
+                        # the `unit or zero` alternative of C09_normal_form
+                        zero_ok = cn[r] == 0 and W[r] == 0
+                        if zero_ok and "zero-component" not in tags:
+                            tags.append("zero-component")
                         if not (unit or zero_ok):
                             return fail("violation", f"column {r} of factor {n} has 2-norm {cn[r]!r}, not 1 {where}", tags)
                 if (W < 0).any():
